@@ -2,7 +2,8 @@
  * without new-line).  A NUL byte ends the value early, so all lengths 1..VLEN are covered.  The value V
  * is restricted to text the documented grammar stores verbatim (no ; # quotes, no blanks at either end,
  * no control characters), so p_ini_file_parameter_string must return exactly V; then per mode:
- *  GET_INT     p_ini_file_parameter_int == reference atoi(V) (C11 7.22.1.2: optional sign, decimal digits, 0 if none)
+ *  GET_INT     p_ini_file_parameter_int == reference decimal reading of V (pinifile.h: 'usual form'; atoi-like: optional sign, decimal
+ *              digits, leading zeros are decimal, '0x..' reads as 0, anything after the digits is ignored, 0 if no digits)
  *  GET_BOOL    "true"/"TRUE"/"1" -> TRUE, "false"/"FALSE"/"0" -> FALSE (the documented spellings; others unspecified)
  *  GET_LIST    "{a b c}" -> the blank-separated items in order; "{}" -> empty list
  *  GET_DOUBLE  unsigned decimal integers -> exactly that number (general notation: harness/C16_strtod.c)
@@ -63,6 +64,11 @@ void harness(void) {
   if (ref_atoi(V, n) < -9) VWITNESS("negative two-digit number");
   if (ref_atoi(V, n) > 999) VWITNESS("four-digit number");
   if (!ref_digit(V[0]) && V[0] != '-' && V[0] != '+') VWITNESS("not a number");
+  /* spellings on which other libc parsers (strtol base 0, %i) disagree with the documented decimal reading */
+  if (V[0] == '0' && ref_atoi(V, n) >= 8) VWITNESS("value with a leading zero and more digits (decimal, not octal)");
+  if (n >= 3 && V[0] == '0' && (V[1] == 'x' || V[1] == 'X') && (ref_digit(V[2]) || (V[2] >= 'a' && V[2] <= 'f'))) VWITNESS("value with a 0x prefix (reads as 0)");
+  if (V[0] == '+' && ref_atoi(V, n) > 0) VWITNESS("explicit plus sign");
+  if (n >= 3 && ref_digit(V[0]) && V[1] == ' ' && ref_digit(V[2])) VWITNESS("blank inside the value ends the number");
 #elif defined(GET_BOOL)
   {
     pboolean d = (dflt & 1) ? TRUE : FALSE;
